@@ -135,6 +135,18 @@ def inl_text(inl):
             out.append(inl_text(i['_0']))
     return ''.join(out)
 
+def inl_text_neutral(b):
+    """plain text of a neutral block (harness side)"""
+    if 'inl' not in b:
+        return b['t']
+    def go(xs):
+        s = ''
+        for i in xs:
+            if i['k'] == 'Str': s += i['t']
+            elif 'c' in i: s += go(i['c'])
+        return s
+    return go(b['inl'])
+
 def out_seq(blocks, levels_out):
     """actual GraphBlocks (neutral) -> same normal form; heading levels collected in levels_out (pre-order)"""
     out = []
